@@ -334,6 +334,11 @@ def run(ctx, res):
             gi = bv.add(bv.const(OFF, 64), bv.zext(ent, 64))
             reads = [x for x in after if x[0] == "arrread" and x[1] == "dram"]
             res.ob(len(reads) == 4)
+            if len(reads) == 0:
+                # the entry is not read byte by byte (e.g. through a 4-byte slice): this rule does not follow that
+                if not any("GOT entry is read" in e_ for e_ in res.errors):
+                    res.errors.append("a GOT entry is read other than by four byte accesses: not decidable by this rule")
+                continue
             if len(reads) != 4:
                 res.finding("got|reads", "a GOT entry is read with %d byte accesses" % len(reads), witness(care))
                 continue
